@@ -118,7 +118,8 @@ class Emitter:
         out = ["(define (domain dom)"]
         if self.style.get("comments"):
             out.append("; a generated domain")
-        out.append(" (:requirements :adl :typing :numeric-fluents :fluents)")
+        costs = s.get("costs")  # {action name: int or None}: the :action-costs idiom
+        out.append(" (:requirements :adl :typing :numeric-fluents :fluents" + (" :action-costs" if costs is not None else "") + ")")
         types = []
         for tn, par in s["types"]:
             types.append((tn, par if par else "object"))
@@ -132,6 +133,8 @@ class Emitter:
             item = f"({self.nm(f['name'])}{' ' + sig if sig else ''})"
             (preds if f["type"] == "bool" else funcs).append(item)
         out.append(" (:predicates " + " ".join(preds) + ")")
+        if costs is not None:
+            funcs.append("(total-cost)")
         if funcs:
             out.append(" (:functions " + " ".join(funcs) + ")")
         for a in s["actions"]:
@@ -141,7 +144,10 @@ class Emitter:
                 out.append("  :precondition (and " + " ".join(self.expr(p) for p in a["pre"]) + ")")
             if self.style.get("comments"):
                 out.append("  ; effects follow")
-            out.append("  :effect (and " + " ".join(self.effect(e) for e in a["eff"]) + "))")
+            effs = [self.effect(e) for e in a["eff"]]
+            if costs is not None and costs.get(a["name"]) is not None:
+                effs.append(f"(increase (total-cost) {costs[a['name']]})")
+            out.append("  :effect (and " + " ".join(effs) + "))")
         out.append(")")
         return "\n".join(out)
 
@@ -178,7 +184,11 @@ class Emitter:
                         init.append(atom)
                 else:
                     init.append(f"(= {atom} {self.num(v[1])})")
+        if s.get("costs") is not None:
+            init.append("(= (total-cost) 0)")
         out.append(" (:init " + " ".join(init) + ")")
         out.append(" (:goal (and " + " ".join(self.expr(g) for g in s["goals"]) + "))")
+        if s.get("costs") is not None:
+            out.append(" (:metric minimize (total-cost))")
         out.append(")")
         return "\n".join(out)
